@@ -225,7 +225,10 @@ def szCmd (l : Limits) (ctor : String) (a : List Int) : Option SzR :=
               andThen (stringJoin (decLen (i : Int)) 3 l.maxString) fun piece => stringJoin len piece l.maxString) (.ok 2)) fun len =>
             andThen (stringJoin len 2 l.maxString) fun _ => restoreMapping n.toNat l.maxMapping)
   | "regexp", [n, matched, flag] =>
-    some (andThen (allocateArray n l.maxArray) fun a => matchRegexp (min matched.toNat a) flag l.maxArray)
+    -- `matched` of the elements are "a", the others "b"; flag & 2 selects the elements that do NOT match
+    some (andThen (allocateArray n l.maxArray) fun a =>
+      let hit := min matched.toNat a
+      matchRegexp (if flag.toNat / 2 % 2 = 1 then a - hit else hit) flag l.maxArray)
   | "reg_assoc", [m] => some (andThen (str m) fun p => regAssoc p l.maxArray)
   | "sprintf_pad", [w, n] =>
     -- sprintf ("%*s", w, s): padded to the field width; the pad goes through the same bounded buffer
